@@ -190,7 +190,10 @@ def _run_core(world, plan):
     for ft in plan.get('faults', []):
         kind = ft['kind']
         if kind == 'cut':
-            link.set_cut(ft['dir'], ft['offset'], ft['mode'])
+            if ft.get('half_dead') and isinstance(link, net.ByteLink):
+                link.set_cut(ft['dir'], ft['offset'], ft['mode'], half_dead=True)
+            else:
+                link.set_cut(ft['dir'], ft['offset'], ft['mode'])
         elif kind == 'stall':
             def stall(ft=ft):
                 p = _out_of(link, ft['who'])
